@@ -746,7 +746,7 @@ class CSSMatch(_DocumentNav):
                 # Can't match a prefix attribute as we haven't specified one to match
                 # Try to match it normally as a whole `p:a` as selector may be trying `p\:a`.
                 # `*|a` also matches an attribute `a` that has no namespace.
-                if (ns is None and prefix != '*') or (prefix == '*' and namespace is None):
+                if (not ns and prefix != '*') or (prefix == '*' and namespace is None):
                     if (self.is_xml and attr == k) or (not self.is_xml and util.lower(attr) == util.lower(k)):
                         yield v
                     # Coverage is not finding this even though it is executed.
